@@ -10,7 +10,7 @@
    durations >= 0, and list one millisecond-aligned (Event.timestamp floors to the
    millisecond, so list one's ends must be on that grid; C15_alignment_needed shows the
    hypothesis cannot be dropped).  Nothing is assumed about list two's alignment. *)
-From AwVerif Require Import Base.Prelude Model.UnionNoOverlap Proofs.UnionNoOverlapProofs.
+From AwVerif Require Import Base.Prelude Model.UnionNoOverlap Proofs.UnionNoOverlapProofs Proofs.UnionNoOverlapUnits.
 
 (* (5) For all inputs whatsoever (no sortedness needed): the loop terminates within the fuel
    length a + length b, and the AttributeError path (_split_event(None, ...)) is unreachable. *)
@@ -87,3 +87,13 @@ Proof.
   cbv zeta. split; [cbn; lia|]. split; [cbn; lia|].
   split; [repeat constructor|]. vm_compute. reflexivity.
 Qed.
+
+(* The empty list is a unit on either side, for every other argument (sorted or not, aligned or
+   not): nothing is cut, reordered or dropped when there is nothing to overlap with. *)
+Theorem C15_unit_right : forall a, union_no_overlap a [] = Ok a.
+Proof. exact uno_unit_right. Qed.
+Print Assumptions C15_unit_right.
+
+Theorem C15_unit_left : forall b, union_no_overlap [] b = Ok b.
+Proof. exact uno_unit_left. Qed.
+Print Assumptions C15_unit_left.
